@@ -858,13 +858,15 @@ class CookieProfile:
         if not self.request:
             raise ValueError("No request bound to cookie profile")
 
-        cookie = self.request.cookies.get(self.cookie_name)
+        try:
+            # NB: parsing the Cookie header raises UnicodeDecodeError (a
+            # ValueError) when a cookie holds octets that are not UTF-8
+            cookie = self.request.cookies.get(self.cookie_name)
 
-        if cookie is not None:
-            try:
+            if cookie is not None:
                 return self.serializer.loads(bytes_(cookie))
-            except ValueError:
-                return None
+        except ValueError:
+            return None
 
     def set_cookies(
         self,
